@@ -109,6 +109,36 @@ pub fn workload(cfg: &TreeCfg, dir: &Path, snaps: &[u64]) -> Result<Vec<String>,
     Ok(out)
 }
 
+/// Recovery check of a crash image: open + read everything, then write / flush / compact / read.
+pub fn image_check(cfg: &TreeCfg, dir: &Path) -> String {
+    let ans = match workload(cfg, dir, &[]) {
+        Ok(a) => a,
+        Err(e) => return format!("ERR {e}"),
+    };
+    // the recovered tree must be usable without colliding with leftovers
+    let cont = (|| -> Result<(), String> {
+        let mut d = DriverLite::open(cfg, dir)?;
+        let t = d.tree.take().unwrap();
+        let s = t.get_highest_persisted_seqno().map_or(1, |x| x + 1);
+        let key = b"zz-after-crash".to_vec();
+        t.insert(key.clone(), b"alive".to_vec(), s);
+        t.flush_active_memtable(0).map_err(|e| format!("flush: {e:?}"))?;
+        t.major_compact(u64::MAX, 0).map_err(|e| format!("major_compact: {e:?}"))?;
+        let got = t.get(&key, SeqNo::MAX).map_err(|e| format!("get: {e:?}"))?;
+        if got.as_deref() != Some(&b"alive"[..]) {
+            return Err(format!("the key written after recovery reads {got:?}"));
+        }
+        for k in &cfg.keys {
+            t.get(k, SeqNo::MAX).map_err(|e| format!("get after compaction: {e:?}"))?;
+        }
+        Ok(())
+    })();
+    if let Err(e) = cont {
+        return format!("CONT {e}");
+    }
+    format!("ANS {}", serde_json::to_string(&ans).unwrap())
+}
+
 /// Minimal opener (no model): fresh cache, fresh descriptor table, fresh counters.
 pub struct DriverLite {
     pub tree: Option<lsm_tree::AnyTree>,
@@ -171,6 +201,16 @@ pub fn worker_main() -> i32 {
             }
         };
         let scratch = PathBuf::from(&job.scratch);
+        if job.kind == "image" {
+            let res = std::panic::catch_unwind(|| image_check(&job.cfg, &scratch));
+            let out = match res {
+                Err(p) => format!("PANIC {}", crate::hx::panic_message(&p).replace('\n', " ")),
+                Ok(s) => s.replace('\n', " "),
+            };
+            println!("{out}");
+            let _ = std::io::stdout().flush();
+            continue;
+        }
         let _ = std::fs::remove_dir_all(&scratch);
         let res = std::panic::catch_unwind(|| {
             let subj = PathBuf::from(&job.subject_dir);
@@ -214,15 +254,15 @@ pub fn worker_main() -> i32 {
     0
 }
 
-struct Worker {
+pub struct WorkerHandle {
     child: Child,
     stdin: ChildStdin,
     stdout: BufReader<ChildStdout>,
     based: std::collections::HashSet<String>,
 }
 
-impl Worker {
-    fn spawn() -> Self {
+impl WorkerHandle {
+    pub fn spawn() -> Self {
         let exe = std::env::current_exe().expect("current exe");
         let mut child = Command::new(exe)
             .arg("corrupt-worker")
@@ -242,7 +282,28 @@ impl Worker {
     }
 
     /// Sends one job; returns the result line, or "ABORT"/"TIMEOUT" if the worker died / hung.
-    fn run(&mut self, job: &Job) -> String {
+    pub fn kill(&mut self) {
+        let _ = self.child.kill();
+        let _ = self.child.wait();
+    }
+
+    /// Opens an already materialised directory (a crash image), reads everything and checks that the
+    /// tree can go on being written, flushed and compacted.
+    pub fn run_image(&mut self, dir: &Path, cfg: &TreeCfg) -> String {
+        let job = Job {
+            subject_dir: dir.to_string_lossy().into_owned(),
+            scratch: dir.to_string_lossy().into_owned(),
+            cfg: cfg.clone(),
+            snaps: vec![],
+            file: String::new(),
+            kind: "image".into(),
+            offset: 0,
+            mask: 0,
+        };
+        self.run(&job)
+    }
+
+    pub fn run(&mut self, job: &Job) -> String {
         let line = serde_json::to_string(job).unwrap();
         if writeln!(self.stdin, "{line}").is_err() {
             return "ABORT".into();
@@ -369,6 +430,10 @@ pub struct Outcome {
     pub harness_errors: Vec<String>,
 }
 
+pub fn rel_files_pub(root: &Path) -> Vec<String> {
+    rel_files(root)
+}
+
 fn rel_files(root: &Path) -> Vec<String> {
     let mut v = vec![];
     fn walk(root: &Path, p: &Path, v: &mut Vec<String>) {
@@ -489,7 +554,7 @@ pub fn run(tier: &str, threads: usize, max_wall_s: f64) -> Outcome {
             (jobs.clone(), base_jobs.clone(), next.clone(), counters.clone(), found.clone(), loud.clone(), herr.clone(), capped.clone());
         let scratch = root.join(format!("w{w}"));
         hs.push(std::thread::spawn(move || {
-            let mut wk = Worker::spawn();
+            let mut wk = WorkerHandle::spawn();
             loop {
                 let i = next.fetch_add(1, Ordering::Relaxed) as usize;
                 if i >= jobs.len() {
@@ -511,7 +576,7 @@ pub fn run(tier: &str, threads: usize, max_wall_s: f64) -> Outcome {
                         if r != "BASE" {
                             herr.lock().unwrap().push(format!("baseline of {} failed: {r}", subj.name));
                             if r == "ABORT" || r == "TIMEOUT" {
-                                wk = Worker::spawn();
+                                wk = WorkerHandle::spawn();
                             }
                             continue;
                         }
@@ -538,7 +603,7 @@ pub fn run(tier: &str, threads: usize, max_wall_s: f64) -> Outcome {
                 };
                 counters[idx].fetch_add(1, Ordering::Relaxed);
                 if idx == 3 || idx == 4 {
-                    wk = Worker::spawn();
+                    wk = WorkerHandle::spawn();
                 }
                 if (2..=4).contains(&idx) {
                     let key = format!("{} in {class} file: {}", ["", "", "panic", "abort", "timeout"][idx], r.chars().take(90).collect::<String>());
@@ -603,7 +668,7 @@ pub fn replay(rp: &CorruptReplay) -> String {
         Ok(s) => s,
         Err(e) => return format!("HARNESS {e}"),
     };
-    let mut wk = Worker::spawn();
+    let mut wk = WorkerHandle::spawn();
     let mk = |kind: &str| Job {
         subject_dir: dir.to_string_lossy().into_owned(),
         scratch: root.join("scratch").to_string_lossy().into_owned(),
